@@ -464,6 +464,13 @@ func unsignedBucket(c *corpus, yield func(Mutant)) {
 	}
 }
 
+func algNameOf(d *donor) string {
+	if a := envcodec.KeyAlg(d.ch.Certs[0].PublicKey); a != nil {
+		return a.Name
+	}
+	return "PS256"
+}
+
 func rebuildJWS(prot, payload, sig *donor, chain *donor) []byte {
 	b := &envcodec.JWSBuild{ProtRaw: prot.jws.ProtectedRaw, Payload: payload.jws.Payload, Sig: sig.jws.Sig, Chain: chain.jws.Chain, Agent: "spliced"}
 	out, err := envcodec.BuildJWS(b)
@@ -598,6 +605,12 @@ func reencodings(c *corpus, yield func(Mutant)) {
 			y("encoding", "whitespace", mk(std, "\n\t ", nil, ""))
 			y("encoding", "member order reversed", mk([]string{"signature", "header", "protected", "payload"}, "", nil, ""))
 			y("encoding", "unknown top-level member", mk(std, "", nil, `,"extra":{"a":[1,2]}`))
+			// unsigned top-level members named like things the implementation may
+			// keep next to the wire fields, holding a header object of their own
+			evil := `{"alg":"` + algNameOf(d) + `","cty":"text/evil","crit":["io.cncf.notary.signingScheme"],"io.cncf.notary.signingScheme":"notary.x509","io.cncf.notary.signingTime":"2009-01-01T00:00:00Z"}`
+			for _, n := range []string{"protectedHeader", "ProtectedHeader", "PROTECTEDHEADER", "protected_header", "signerInfo", "content", "base", "raw", "Payload ", "certs"} {
+				y("encoding", "unsigned top-level member "+n+" holding a header object", mk(std, "", nil, `,"`+n+`":`+evil))
+			}
 			y("encoding", `\u escapes inside the base64url strings`, mk(std, "", map[string]string{
 				"payload": `"` + escapeAll(d.jws.PayloadB64) + `"`, "protected": `"` + escapeAll(d.jws.ProtectedB64) + `"`, "signature": `"` + escapeAll(d.jws.SignatureB64) + `"`}, ""))
 			other := base64.RawURLEncoding.EncodeToString([]byte(`{"targetArtifact":{"digest":"sha256:evil","size":1}}`))
@@ -725,8 +738,18 @@ func judge(r *core.Run, m *Mutant) {
 			return
 		}
 		if len(m.Data)%2 == 0 {
-			// the order real callers use: look at the content first, verify then
-			env.Content()
+			// the order real callers use: look at the content first, verify then -
+			// and what Content() handed out is the caller's to overwrite (redaction,
+			// buffer reuse): a later Verify() must still return what was signed
+			if first, cerr := env.Content(); cerr == nil && first != nil && len(m.Data)%4 == 0 {
+				for i := range first.Payload.Content {
+					first.Payload.Content[i] ^= 0x5a
+				}
+				first.Payload.ContentType = "scribbled/over"
+				for _, c := range first.SignerInfo.CertificateChain {
+					_ = c
+				}
+			}
 		}
 		content, err = env.Verify()
 	})
